@@ -8,17 +8,17 @@
    Status
      proved   : wf_preserved, refines_map, history_refines_map,
                 distinct_keys_never_alias, delete_keeps_others,
-                backward_shift_keeps_chains, cas_only_on_identity,
-                compare_delete_only_on_identity, insert_never_evicts_own_key,
+                backward_shift_keeps_chains, evict_exactly_min_others,
+                cas_only_on_identity, compare_delete_only_on_identity,
+                insert_never_evicts_own_key, capacity_respected_sequentially,
                 segment_len_is_reachable, count_eq_entries_at_quiescence,
                 no_nested_locks, gen_grow_len_pow2_tie
-     partial  : evict_only_others_partial (the count r = min(n, #others) is
-                checked by Run.spec_case on every observed call, not proved),
-                occupancy_bound_partial (entries <= counter + calls in flight)
+     partial  : occupancy_bound_partial (entries <= counter + calls in flight,
+                every schedule; the bound against the capacity is refuted)
      refuted  : occupancy_bound_refuted (finding swc-sparse-scan-race),
                 count_eq_entries_with_clear_refuted (finding clear-count-race) *)
 From Sdns Require Import Common.Base Gen.C16 C16.Model C16.Conc.
-From Sdns Require Import C16.Proofs_cyc C16.Proofs_tab C16.Proofs_wf C16.Proofs_more C16.Proofs_seg C16.Proofs_hist C16.Proofs_conc.
+From Sdns Require Import C16.Proofs_cyc C16.Proofs_tab C16.Proofs_wf C16.Proofs_more C16.Proofs_seg C16.Proofs_hist C16.Proofs_conc C16.Proofs_evict C16.Proofs_cap.
 Open Scope nat_scope.
 
 (* 1. The table invariant (power-of-two length >= 8, no key twice, every probe
@@ -79,16 +79,17 @@ Theorem backward_shift_keeps_chains : forall (mix : N -> N) d j,
 Proof. exact delete_ok. Qed.
 Print Assumptions backward_shift_keeps_chains.
 
-(* 7. EvictKeysAt: r entries are gone, never [skip]; every other key keeps its
-      value or is one of the r; Len went down by r; r <= n.
-      Full statement additionally: snd r = Z.max 0 (Z.min n (number of keys other than skip)). *)
-Theorem evict_only_others_partial : forall (mix : N -> N) t offset nmax skip, WF mix t ->
+(* 7. EvictKeysAt(offset, n, skip) deletes exactly min(n, number of keys other
+      than skip) entries, never [skip]; every other key keeps its value or is one
+      of the deleted; Len goes down by that number. *)
+Theorem evict_exactly_min_others : forall (mix : N -> N) t offset nmax skip, WF mix t ->
   let r := tevict mix t offset nmax skip in
-  WF mix (fst r) /\ (0 <= snd r <= Z.max 0 nmax)%Z /\
+  WF mix (fst r) /\
+  snd r = Z.max 0 (Z.min nmax (t_size t - (if present (abs t) skip then 1 else 0))) /\
   t_size (fst r) = (t_size t - snd r)%Z /\
   shrinks (abs t) (abs (fst r)) /\ abs (fst r) skip = abs t skip.
-Proof. exact tevict_spec. Qed.
-Print Assumptions evict_only_others_partial.
+Proof. exact tevict_full. Qed.
+Print Assumptions evict_exactly_min_others.
 
 (* 8. CompareAndSwap / CompareAndDelete act exactly when the identical current value is present. *)
 Theorem cas_only_on_identity : forall (mix : N -> N) (sidx : nat -> N -> nat),
@@ -123,6 +124,15 @@ Theorem insert_never_evicts_own_key : forall (mix : N -> N) (sidx : nat -> N -> 
   shrinks (upd_abs (sabs sidx m) k v) (sabs sidx m').
 Proof. exact Proofs_seg.insert_never_evicts_own_key. Qed.
 Print Assumptions insert_never_evicts_own_key.
+
+(* 9b. Capacity, calls run to completion: a map within its capacity (>= 1) is
+       within it again after SetWithCap / Cache.Add. *)
+Theorem capacity_respected_sequentially : forall (mix : N -> N) (sidx : nat -> N -> nat) (eoff : N -> Z),
+  (forall n k, 0 < n -> sidx n k < n) ->
+  forall m k v cap, SWF mix sidx m -> (1 <= cap)%Z -> (sm_count m <= cap)%Z ->
+  (sm_count (sm_set_with_cap mix sidx eoff m k v cap) <= cap)%Z.
+Proof. exact swc_within_capacity. Qed.
+Print Assumptions capacity_respected_sequentially.
 
 (* 10. Len() = number of entries ForEach yields = number of reachable keys. *)
 Theorem segment_len_is_reachable : forall (mix : N -> N) (sidx : nat -> N -> nat),
